@@ -1,5 +1,5 @@
 """C02 — decoding at an expected type is exactly the specification's coercion."""
-import json, os
+import json, os, shutil
 from common import *
 PROP = "C02"
 INV = ["EncDec", "Refl", "Sound", "LayoutFree", "Emit"]
@@ -18,6 +18,69 @@ def classify(res, trace, bad, prop_kind="dec"):
             res.violation(t, site, {"types": r.get("types"), "blob_hex": bytes(r.get("blob", [])).hex() if isinstance(r.get("blob"), list) else r.get("blob"),
                                      "env": {k: v for k, v in (r.get("env") or {}).items() if not k.startswith("p_")}, "obs": o, "msg": msg},
                           "real decoder vs Wire.Parse + Coerce")
+
+def session_stage(res, wd, tier, seed, prop="C02"):
+    """The IDLDeserialize session as a state machine (Session.tla): TLC explores every operation sequence of
+    MC_Session (checking Refines/AfterDone/Forward on the specification), every behaviour is replayed on the
+    real object, random walks over random (damaged) messages are recorded, and Trace_Session referees."""
+    swd = os.path.join(wd, "session")
+    os.makedirs(swd, exist_ok=True)
+    cases = os.path.join(swd, "cases.ndjson")
+    level, maxops, nrand = (1, 3, 6000) if tier == "quick" else (2, 3, 60000)
+    if prop != "C02":
+        open(cases, "w").close()
+    else:
+        cfg = os.path.join(swd, "MC_Session.cfg")
+        write_cfg(cfg, constants={"Level": level, "MaxOps": maxops}, invariants=["Refines", "AfterDone", "Emit"], properties=["Forward"])
+        st = tlc_generate("MC_Session", cfg, cases, swd, workers=NCPU, timeout=3000)
+        if st["violated"]:
+            raise ToolError("specification invariant violated in MC_Session: %s\n%s" % (st["violated"], st["tail"][-1500:]))
+        res.add_states(st)
+        res.cov["parts"]["tlc_cases_MC_Session"] = st["cases"]
+        if tier != "quick":
+            # longer sessions by simulation
+            cfg2 = os.path.join(swd, "MC_Session_sim.cfg")
+            write_cfg(cfg2, constants={"Level": 2, "MaxOps": 6}, invariants=["Refines", "AfterDone", "Emit"])
+            part = os.path.join(swd, "cases_sim.ndjson")
+            st2 = tlc_generate("MC_Session", cfg2, part, swd, workers=NCPU, simulate="num=40000", timeout=3000)
+            if st2["violated"]:
+                raise ToolError("specification invariant violated in MC_Session (simulation): %s" % st2["violated"])
+            res.cov["parts"]["tlc_cases_MC_Session_sim"] = st2["cases"]
+            with open(cases, "a") as out, open(part) as f:
+                shutil.copyfileobj(f, out)
+            os.remove(part)
+    trace = os.path.join(swd, "trace.ndjson")
+    aborts = run_harness_parallel("session", cases, seed, nrand, trace, swd, k=8)
+    res.cov["parts"]["session_worker_aborts"] = len(aborts)
+    v = tlc_validate("Trace_Session", trace, swd, shards=8)
+    res.add_states(v)
+    res.cov["traces_validated_against_impl"] += v["lines"]
+    res.cov["parts"]["sessions"] = v["lines"]
+    bad = {}
+    for ln, det in v["mismatches"]:
+        bad.setdefault(ln, []).append(det.strip('"'))
+    recs = read_lines(trace, bad.keys())
+    with open(trace) as f:
+        for i, line in enumerate(f):
+            r = json.loads(line)
+            res.count_case("session" + json.dumps([r.get("blob"), r.get("ops")], sort_keys=True), nontrivial=len(r.get("outs", [])) > 1)
+            if i == 20000:
+                res.sample({"session": {"blob_hex": bytes(r["blob"]).hex(), "ops": r["ops"], "outs": r["outs"]}}, limit=5)
+    for ln, tags in bad.items():
+        r = recs[ln]
+        for t in tags:
+            if t.startswith("DRIFT:"):
+                res.cov["drift"] += 1
+                continue
+            quota = t == "quota_refunded"
+            if quota != (prop == "C07"):
+                continue
+            panics = [o["panic"] for o in r.get("outs", []) + [r.get("new", {})] if isinstance(o, dict) and "panic" in o]
+            site = ("panic@" + panics[0]) if panics else "decoding-session"
+            res.violation(t, site, {"blob_hex": bytes(r.get("blob", [])).hex(), "ops": r.get("ops"), "new": r.get("new"), "outs": r.get("outs"), "dq": r.get("dq"),
+                                    "env": {k: v for k, v in (r.get("env") or {}).items() if not k.startswith("p_")}},
+                          "IDLDeserialize session vs Session.tla")
+    return v["lines"]
 
 def run(tier, seed):
     res = Result(PROP, tier, seed)
@@ -59,9 +122,10 @@ def run(tier, seed):
             site = "panic@" + o["panic"] if isinstance(o, dict) and "panic" in o else "untyped-decode"
             res.violation("suite:" + ("abort" if t == "abort" else "real_differs_from_spec"), site, {"file": r.get("file"), "assertion": r.get("n"), "types": r.get("types"),
                           "blob_hex": bytes((side or {}).get("blob", [])).hex(), "obs": o}, "conformance suite input: real decoder vs Wire.Parse + Coerce")
+    nsess = session_stage(res, wd, tier, seed)
     res.rule = ("TLC (MC_Decode level %d): every (wire type, inhabitant, expected type) over depth-<=2 type trees, message produced by the specification's encoder; harness: %d seeded cases - random recursive "
                 "environments with 0-2 arguments decoded at related/unrelated expected type sequences (surplus, missing), and byte-level mutants (flip, truncate, insert opcode, duplicate, over-long LEB); each through "
-                "from_bytes_with_types and the step-wise IDLDeserialize session; plus every assertion of the conformance suite test/*.test.did (specification checked against the asserted outcome, real decoder against the specification); non-trivial = message longer than 8 bytes; distinct by (bytes, expected types, environment)" % (level, nrand))
+                "from_bytes_with_types and the step-wise IDLDeserialize session; plus every assertion of the conformance suite test/*.test.did (specification checked against the asserted outcome, real decoder against the specification); non-trivial = message longer than 8 bytes; distinct by (bytes, expected types, environment). Sessions: %d operation sequences (new / get_value_with_type / is_done / done, every sequence of MC_Session over exact, truncated, extended and damaged messages, plus random walks on random messages) replayed on IDLDeserialize and refereed by Trace_Session" % (level, nrand, nsess))
     res.cov["exhaustive"] = True
     res.assumptions = ["interpretation ledger of DESIGN.md §6.2 (single-byte constructor opcodes, <=10000 table entries, principal <=29 bytes, <=1 annotation, opaque references unsupported, uninhabited wire records = empty)",
                        "messages the specification classifies as bombs (more than 20000 values) are not judged"]
